@@ -10,6 +10,10 @@ import PyCraft.Drive.Trackers
 import PyCraft.Drive.Login
 import PyCraft.Drive.Play
 import PyCraft.Drive.Versions
+import PyCraft.Drive.Writers
+import PyCraft.Drive.Packets
+import PyCraft.Drive.Lifecycle
+import PyCraft.Drive.Layout
 /-!
 Line-protocol driver over the executable definitions of the models.  One request per line, tokens
 separated by single spaces, byte strings hex-encoded (`-` = empty).  One canonical reply per line.
@@ -17,7 +21,7 @@ Anything unparsable yields `bad-op` (never a default value).
 -/
 open PyCraft PyCraft.Drive
 
-def handlers : List (List String → Option String) := [varint, mchash, position, auth, cfb8, dispatch, negotiate, Drive.frame, trackers, login, play, versions]
+def handlers : List (List String → Option String) := [varint, mchash, position, auth, cfb8, dispatch, negotiate, Drive.frame, trackers, login, play, versions, writers, packets, lifecycle, Drive.layout, Drive.wireReal]
 
 def handle (toks : List String) : String :=
   match handlers.findSome? (· toks) with
